@@ -42,6 +42,14 @@ func enumLarge(yield func(LargeCase) bool) {
 		return
 	}
 	small := strings.TrimSuffix(big, "+400-lines")
+	// two builds from one template, each setting another party's alias
+	tmpl := BulkCase{Reqs: []BulkReq{
+		{Action: "build", ReqID: "t1", Doc: small, Template: "supplier"},
+		{Action: "build", ReqID: "t2", Doc: small, Template: "customer"},
+		{Action: "build", ReqID: "t3", Doc: small, Template: "supplier"},
+		{Action: "build", ReqID: "t4", Doc: small},
+	}}
+	templateCases = append(templateCases, tmpl)
 	orders := [][]string{
 		{"big:build"},
 		{"small:build", "big:build", "small:build"},
@@ -58,7 +66,16 @@ func enumLarge(yield func(LargeCase) bool) {
 	}
 }
 
+var templateCases []BulkCase
+
 func judgeLarge(c LargeCase, o *vh.Obs) {
+	for _, tc := range templateCases {
+		judgeBulk(tc, o)
+		if o.Failed() {
+			return
+		}
+	}
+	templateCases = nil
 	bigSrc, smallSrc := srcByName(c.Big), srcByName(c.Small)
 	if bigSrc == nil || smallSrc == nil {
 		o.Discard()
